@@ -604,7 +604,8 @@ def run_check(pid, tier, seed, replay=None):
             "rule": stats.get("rule", ""),
             "samples": stats.get("samples", [])[:6] or [n for n, _, _ in obligations[:3]],
             "property_oracle_checks_on_real_code": stats.get("prop_checks", 0),
-            "property_oracle_failures": stats.get("prop_failures", 0),
+            "property_oracle_failures": len(pfails),
+            "property_oracle_failures_matching_known_findings": len(known_hits),
             "model_vs_impl_disagreeing_cases": len(mism),
             "input_distribution": stats.get("hist", {}),
             "known_findings_reproduced": sorted(seen),
